@@ -705,3 +705,60 @@ confidence = Contract(
     assumptions=['10**x is an uninterpreted function of x (no floating point); pysam get_aligned_pairs / query_qualities through stubs'],
 )
 UNITS.append(confidence)
+
+
+# ------------------------------------------------------------------------------ get_aligned_blocks against its assumed contract
+# The CIGAR / MD units above use Molecule.get_aligned_blocks through an assumed contract (maximal runs of covered reference
+# positions, ascending, inclusive ends).  The function itself is run here on real records over an exhaustive small domain.
+def aligned_blocks_bounded(tier, seed):
+    import itertools
+    import json
+    import os
+    import pysam
+    from pyvc.contract import import_real
+    Mol = import_real(FM, 'Molecule')
+    header = pysam.AlignmentHeader.from_dict({'HD': {'VN': '1.6'}, 'SQ': [{'SN': 'chr1', 'LN': 1000}]})
+
+    def read(start, ops):
+        a = pysam.AlignedSegment(header)
+        n = sum(l for op, l in ops if op in (0, 1, 4))
+        a.query_name, a.query_sequence = 'q', 'A' * n
+        a.query_qualities = pysam.qualitystring_to_array('I' * n)
+        a.reference_id, a.reference_start, a.cigartuples, a.mapping_quality, a.flag = 0, start, ops, 60, 0
+        return a
+    shapes = [[(0, 2)], [(0, 3)], [(0, 1), (2, 1), (0, 2)], [(0, 2), (3, 2), (0, 1)], [(4, 1), (0, 2), (1, 1), (0, 1)]]
+    n = 0
+    for s1, s2 in itertools.product(shapes, repeat=2):
+        for off in range(0, 9):
+            r1, r2 = read(10, s1), read(10 + off, s2)
+            m = object.__new__(Mol)
+            m.fragments = [[r1, r2]]
+            covered = sorted({p for r in (r1, r2) for _, p in r.get_aligned_pairs(matches_only=True)})
+            want, run = [], None
+            for p in covered:
+                if run and p == run[1] + 1:
+                    run[1] = p
+                else:
+                    run = [p, p]
+                    want.append(run)
+            want = [tuple(x) for x in want]
+            try:
+                got = [tuple(int(v) for v in x) for x in m.get_aligned_blocks()]
+            except Exception as e:      # noqa: BLE001
+                got = '%s: %s' % (type(e).__name__, e)
+            n += 1
+            if got != want:
+                out = os.environ.get('VERIF_OUT', '.')
+                os.makedirs(os.path.join(out, 'replays', PROP), exist_ok=True)
+                path = 'replays/%s/get_aligned_blocks.json' % PROP
+                json.dump({'property': PROP, 'obligation': '%s/get_aligned_blocks[assumed contract]' % PROP,
+                           'replay': {'status': 'confirmed', 'reads': [[10, r1.cigarstring], [10 + off, r2.cigarstring]],
+                                      'observed': got, 'expected_maximal_runs_of_covered_positions': want}},
+                          open(os.path.join(out, path), 'w'), indent=1)
+                return {'result': 'violation', 'replay': path, 'confirmed': True, 'molecules': n}
+    return {'result': 'clean', 'molecules': n}
+
+
+UNITS.append(Bounded(PROP, 'get_aligned_blocks[the contract the CIGAR/MD units assume, on real records]', aligned_blocks_bounded,
+                     'two reads of 5 alignment shapes (M, D, N, S, I) each, second read shifted 0..8 bases: 225 molecules',
+                     'exhaustive run of the real function against the specification'))
